@@ -29,7 +29,7 @@ static int paren_enter(AsmContext *asm_context)
 {
   if (paren_depth >= MAX_PAREN_DEPTH)
   {
-    print_error(asm_context, "Parentheses are nested too deep");
+    print_error(asm_context, "Parentheses / unary operators are nested too deep");
     return -1;
   }
 
@@ -298,13 +298,20 @@ int EvalExpression::parse_unary_new(AsmContext *asm_context, Var &answer)
     else
   if (IS_TOKEN(token, '~'))
   {
-    if (parse_unary_new(asm_context, answer) != 0) { return -1; }
+    // A chain of unary operators recurses like parentheses do.
+    if (paren_enter(asm_context) != 0) { return -1; }
+    int ret = parse_unary_new(asm_context, answer);
+    paren_depth--;
+    if (ret != 0) { return -1; }
     answer.complement();
   }
     else
   if (IS_TOKEN(token, '-'))
   {
-    if (parse_unary_new(asm_context, answer) != 0) { return -1; }
+    if (paren_enter(asm_context) != 0) { return -1; }
+    int ret = parse_unary_new(asm_context, answer);
+    paren_depth--;
+    if (ret != 0) { return -1; }
     answer.negative();
   }
     else
